@@ -218,6 +218,18 @@ pub fn run() -> i32 {
                 }
             }
         }
+        for mac in 0..=4u8 {
+            for pred in 0..2u8 {
+                for recv in 0..=4u8 {
+                    crate::sym::load(vec![vec![mac], vec![pred], vec![recv]]);
+                    n += 1;
+                    if std::panic::catch_unwind(|| crate::node::c10_literal_predicate()).is_err() {
+                        c11_bad += 1;
+                        eprintln!("SELFTEST-FAIL: c10_literal_predicate: macro={} literal={} receiver={}", mac, pred, recv);
+                    }
+                }
+            }
+        }
         for mac in 0..=5u8 {
             for nn in 0..=3u8 {
                 for bits in 0..8u8 {
